@@ -87,6 +87,13 @@ func buildIntrinsics() map[string]Intrinsic {
 		hi = cc.Ite(cc.Slt(ls, hi), ls, hi)
 		return val(e.StrSlice(s, lo, hi))
 	}
+	m[hp+"vByte"] = func(e *Exec, st *State, ci *CallInfo) Outcome {
+		s := sArg(ci, 0)
+		i := ci.Args[1].(*sym.Term)
+		cc := e.C
+		in := cc.And(cc.Sle(e.i64(0), i), cc.Slt(i, e.lenOf(s)))
+		return val(cc.Ite(in, cc.Zext(e.atT(s, i), 64), e.i64(0)))
+	}
 	m[hp+"verifCoverIf"] = func(e *Exec, st *State, ci *CallInfo) Outcome {
 		label := mustConc(ci.Args[0], "cover label")
 		cond := ci.Args[1].(*sym.Term)
